@@ -321,3 +321,100 @@ Proof.
      | |- context [if ?c then _ else _] => let E := fresh "E" in destruct c eqn:E
      end; try (exfalso; lia); repeat match goal with |- (_, _) = (_, _) => apply f_equal2 end; lia.
 Qed.
+
+(* ---- expression replacement ------------------------------------------------------------------------------------- *)
+
+Lemma apply_at_replace_ext tgt new (f g : stree -> stree) t :
+  (forall k, apply_at tgt (fun _ => new) (f k) = apply_at tgt (fun _ => new) (g k)) ->
+  apply_at tgt (fun _ => new) (f t) = apply_at tgt (fun _ => new) (g t).
+Proof. intros H. apply H. Qed.
+
+(* replacing the target afterwards makes it irrelevant whether phase 2 entered the target or not *)
+Lemma replace_forgets_target lno colo dln dcol self tgt new oe t :
+  apply_at tgt (fun _ => new) (map_tree lno colo dln dcol TFalse TTrue (Some tgt) oe t)
+  = apply_at tgt (fun _ => new) (mode_map lno colo dln dcol self true t).
+Proof.
+  induction t as [i p d kids IH] using stree_ind'. cbn [map_tree mode_map orb].
+  destruct (Nat.eqb tgt i) eqn:E.
+  - destruct oe; cbn [negb andb apply_at]; rewrite ?E; reflexivity.
+  - cbn [andb apply_at]. rewrite E. f_equal. rewrite !map_map. apply map_ext_in.
+    intros [k|] Hin; [|reflexivity]. f_equal. now apply IH.
+Qed.
+
+Lemma map_tree_is_map_pos lno colo dln dcol tail head t :
+  map_tree lno colo dln dcol tail head None true t = map_pos (offset_spec lno colo dln dcol tail head) t.
+Proof.
+  induction t as [i p d kids IH] using stree_ind'. cbn [map_tree map_pos andb].
+  f_equal. apply map_ext_in. intros [k|] Hin; [|reflexivity]. f_equal. now apply IH.
+Qed.
+
+Lemma map_pos_ext_in f g t : (forall q, In q (all_pos t) -> f q = g q) -> map_pos f t = map_pos g t.
+Proof.
+  induction t as [i p d kids IH] using stree_ind'. intros H. cbn [map_pos]. f_equal.
+  - destruct p as [q|]; [|reflexivity]. cbn. f_equal. apply H. cbn. now left.
+  - apply map_ext_in. intros [k|] Hin; [|reflexivity]. f_equal. apply IH; [assumption|].
+    intros q Hq. apply H. cbn [all_pos]. apply in_or_app. right. apply in_flat_map. exists (Some k). now split.
+Qed.
+
+(* the standalone new tree lands rigidly at (ln0, dcol0) *)
+Theorem rigid_is_rigid_pos ln0 dcol0 new : Ordered new -> standalone new ->
+  rigid ln0 dcol0 new = map_pos (rigid_pos ln0 dcol0) new.
+Proof.
+  intros HO Hs. unfold rigid, offset_top.
+  destruct ((ln0 =? 0) && (dcol0 =? 0)) eqn:Ez.
+  - assert (ln0 = 0 /\ dcol0 = 0) as [-> ->] by lia.
+    symmetry. rewrite <- (fun t => map_pos_ext_in (fun q => q) _ t) .
+    + clear. induction new as [i p d kids IH] using stree_ind'. cbn [map_pos]. f_equal; [now destruct p|].
+      rewrite <- (map_id kids) at 2. apply map_ext_in. intros [k|] Hin; [|reflexivity]. f_equal. now apply IH.
+    + intros [[[l c] el] ec] _. unfold rigid_pos. repeat match goal with |- context [if ?c then _ else _] => destruct c end;
+        repeat match goal with |- (_, _) = (_, _) => apply f_equal2 end; lia.
+  - destruct (walk_is_map 1 0 ln0 dcol0 TFalse TTrue None true new HO) as [H _]. rewrite H.
+    rewrite map_tree_is_map_pos. apply map_pos_ext_in.
+    intros [[[l c] el] ec] Hq. destruct (Hs _ Hq) as [H1 H2]. unfold rigid_pos. now apply spec_child_after.
+Qed.
+
+Lemma apply_at_node s f i p d kids :
+  apply_at s f (SNode i p d kids)
+  = if Nat.eqb s i then f (SNode i p d kids)
+    else SNode i p d (map (fun k => match k with Some k => Some (apply_at s f k) | None => None end) kids).
+Proof. reflexivity. Qed.
+
+Theorem expr_replace_is_mode_map lno colo dln dcol parent target ln0 dcol0 new t :
+  Ordered t -> Ordered new -> standalone new ->
+  expr_replace lno colo dln dcol parent target ln0 dcol0 new t
+  = apply_at target (fun _ => map_pos (rigid_pos ln0 dcol0) new) (mode_map lno colo dln dcol parent false t).
+Proof.
+  intros HO HOn Hs. unfold expr_replace. rewrite (rigid_is_rigid_pos ln0 dcol0 new HOn Hs).
+  set (new' := map_pos (rigid_pos ln0 dcol0) new).
+  unfold offset_top.
+  destruct ((dln =? 0) && (dcol =? 0)) eqn:Ez.
+  - assert (dln = 0 /\ dcol = 0) as [-> ->] by lia. clear Ez.
+    assert (G : forall b t0, mode_map lno colo 0 0 parent b t0 = t0).
+    { intros b t0; revert b. induction t0 as [i p d kids IH] using stree_ind'. intros b. cbn [mode_map].
+      assert (Hp : option_map (if b then offset_spec lno colo 0 0 TFalse TTrue else offset_spec lno colo 0 0 TTrue TFalse) p = p).
+      { destruct p as [q|]; [|reflexivity]. destruct b; cbn; now rewrite spec_zero. }
+      rewrite Hp. f_equal. rewrite <- (map_id kids) at 2. apply map_ext_in.
+      intros [k|] Hin; [|reflexivity]. f_equal. now apply IH. }
+    rewrite G. f_equal. clear. induction t as [i p d kids IH] using stree_ind'. cbn [apply_at].
+    destruct (Nat.eqb parent i); [now destruct p|].
+    f_equal. rewrite <- (map_id kids) at 2. apply map_ext_in. intros [k|] Hin; [|reflexivity]. f_equal. now apply IH.
+  - destruct (walk_is_map lno colo dln dcol TTrue TFalse (Some parent) true t HO) as [H1 _]. rewrite H1. clear H1.
+    induction t as [i p d kids IH] using stree_ind'.
+    inversion HO as [i' p' d' kids' Hp Hsb Hk]; subst.
+    cbn [map_tree mode_map negb andb orb].
+    destruct (Nat.eqb parent i) eqn:Es.
+    + cbn [andb negb]. rewrite (apply_at_node parent), Es. cbv beta iota.
+      destruct (Nat.eqb target i) eqn:Et.
+      { rewrite !apply_at_node, Et. reflexivity. }
+      assert (WK : walk_kids lno colo dln dcol TFalse TTrue (Some target) true kids
+                   = map (fun k => match k with Some k => Some (map_tree lno colo dln dcol TFalse TTrue (Some target) true k) | None => None end) kids).
+      { assert (HO2 : Ordered (SNode i None None kids)) by (constructor; [discriminate|assumption|assumption]).
+        destruct (walk_is_map lno colo dln dcol TFalse TTrue (Some target) true _ HO2) as [H _].
+        cbn [walk_tree map_tree node_step s_pos fst] in H. rewrite Et in H. cbn [andb fst] in H. injection H as H. exact H. }
+      rewrite !apply_at_node, Et. rewrite WK. f_equal. rewrite !map_map. apply map_ext_in.
+      intros [k|] Hin; [|reflexivity]. f_equal. apply replace_forgets_target.
+    + cbn [andb negb]. rewrite (apply_at_node parent), Es. rewrite !apply_at_node.
+      destruct (Nat.eqb target i) eqn:Et; [reflexivity|].
+      f_equal. rewrite !map_map. apply map_ext_in.
+      intros [k|] Hin; [|reflexivity]. f_equal. apply IH; [assumption|]. now apply Hk.
+Qed.
